@@ -186,7 +186,8 @@ def _person_strategy():
 
     pool = ["Knuth", "Donald", "E.", "von", "der", "de", "la", "van", "Beethoven", "Jr", "IV", "{de la}", "{Foo Bar}", "d'Ormesson",
             "Jean-Paul", "{\\'E}mile", "{\\'e}cole", "\\'Emile", "\\'ecole", "1st", "2b", "{cc}", "{Cc}", "ÉCOLE", "école", "Ünal",
-            "x{\\'E}", "{x}y", "{x}Y", "B\\\\", "'t", "A", "b", "{and}", "{a and b}", "Band", "andy", "{,}", "a{b,c}d"]
+            "x{\\'E}", "{x}y", "{x}Y", "B\\\\", "'t", "A", "b", "{and}", "{a and b}", "Band", "andy", "{,}", "a{b,c}d",
+            "Fontaine\xa0", "\xa0van", "Last\u2003", "\x0bX", "y\x0c", "\x85Z"]
     word = st.one_of(st.sampled_from(pool), st.sampled_from(WORDS14))
 
     @st.composite
